@@ -3046,8 +3046,8 @@ def SIR_heterogeneous_pairwise(Sk0, Ik0, Rk0, SkSl0, SkIl0, tau, gamma,
     S = Sk.sum(axis=0)
     Ik = X.T[kcount:2*kcount]
     I = Ik.sum(axis=0)
-    SkIl = X.T[2*kcount:2*kcount+kcount**2]
-    SkSl = X.T[2*kcount+kcount**2: 2*kcount+2*kcount**2]
+    SkSl = X.T[2*kcount:2*kcount+kcount**2]
+    SkIl = X.T[2*kcount+kcount**2: 2*kcount+2*kcount**2]
 
     Rk = Nk[:,None] - Sk - Ik
     R = Rk.sum(axis=0)
